@@ -22,7 +22,12 @@ class InvertedBooleanCheckTransformer(LibcstResultTransformer):
             # `not a == b == c` is not `a != b != c`: chained comparisons are left alone
             and len(comparison.comparisons) == 1
         ):
-            return self.report_new_comparison(original_node, comparison)
+            new_node = self.report_new_comparison(original_node, comparison)
+            # `(not a == b) + 1` is not `a != b + 1`: the parentheses of the `not` expression stay
+            return new_node.with_changes(
+                lpar=[*updated_node.lpar, *new_node.lpar],
+                rpar=[*new_node.rpar, *updated_node.rpar],
+            )
         return updated_node
 
     def report_new_comparison(
